@@ -51,7 +51,7 @@ def main():
         # real /verif/sim keeps pointing at /repo while mutants are being run
         simcopy = os.path.join(base, "simcopy")
         os.makedirs(simcopy, exist_ok=True)
-        subprocess.run(["rsync", "-a", "--delete", "--exclude", "target", "--exclude", "bita/src/lib.rs", os.path.join(VERIF, "sim") + "/", simcopy + "/"], check=True)
+        subprocess.run(["rsync", "-a", "--delete", "--exclude", "target", "--exclude", "bita/src/lib.rs", os.environ.get("MUTANT_SIM_SRC", os.path.join(VERIF, "sim")) + "/", simcopy + "/"], check=True)
         env = dict(os.environ, VERIF_REPO=wt, VERIF_OUT=out, VERIF_SIM=simcopy)
         for p in props:
             cmd = [os.path.join(VERIF, "check"), p, "--tier", tier]
